@@ -571,6 +571,116 @@ func checkSingleDocument(e *Env, p *load.Program) {
 			}
 		}
 	}
+	// each writer reports a marshalling failure and returns nil only after it wrote the marshalled document; the command
+	// terminates with an error when a writer (or opening the output) fails
+	for f, k := range writers {
+		w := f.Params[k]
+		for _, c := range flow.Calls(f) {
+			call, ok := c.(*ssa.Call)
+			if !ok {
+				continue
+			}
+			cal := flow.Callee(call)
+			if cal == nil || cal.Name() != "Marshal" || cal.Pkg == nil || !strings.Contains(cal.Pkg.Pkg.Path(), "yaml") {
+				continue
+			}
+			failEdgeReturnsError(e, p, "E4.profile", load.FuncName(f)+"/marshal-error", call, false)
+			data := flow.ResultN(call, 0)
+			// the write of the marshalled bytes
+			var wr ssa.Instruction
+			for _, c2 := range flow.Calls(f) {
+				usesW, usesData := false, false
+				for _, a := range c2.Common().Args {
+					if a == ssa.Value(w) {
+						usesW = true
+					}
+					if mi, ok := a.(*ssa.MakeInterface); ok && mi.X == ssa.Value(w) {
+						usesW = true
+					}
+					if derivesFromValue(a, data, 0) {
+						usesData = true
+					}
+				}
+				if c2.Common().IsInvoke() && c2.Common().Value == ssa.Value(w) {
+					usesW = true
+				}
+				if usesW && usesData {
+					wr = c2
+				}
+			}
+			good := wr != nil
+			if good {
+				for _, ret := range flow.Returns(f) {
+					rs := flow.RetResults(ret)
+					if len(rs) > 0 && flow.IsNilConst(rs[len(rs)-1]) && !flow.InstrDominates(wr, ret) {
+						good = false
+					}
+				}
+			}
+			r.Check(good, "E4.profile", load.FuncName(f)+"/written-before-success", p.Pos(call.Pos()),
+				"the marshalled document is written to the output on every path that reports success",
+				load.FuncName(f)+" can return nil without having written the marshalled document: the output file is empty or partial and does not load")
+		}
+	}
+	nFatal := 0
+	for _, g := range p.SrcFuncs(load.PkgProfiler) {
+		if g.Name() != "main" || g.Parent() != nil {
+			continue
+		}
+		for _, c := range flow.Calls(g) {
+			call, ok := c.(*ssa.Call)
+			if !ok || flow.ErrResult(call) == nil {
+				continue
+			}
+			cal := flow.Callee(call)
+			_, isW := writers[cal]
+			_, isEm := profileEmitters(p)[cal]
+			opensOut := false
+			if cal != nil && cal.Signature.Results().Len() == 2 {
+				if n, ok := cal.Signature.Results().At(0).Type().(*types.Named); ok && n.Obj().Pkg() != nil && n.Obj().Pkg().Path() == "io" && strings.HasPrefix(n.Obj().Name(), "Write") {
+					opensOut = cal.Pkg != nil && cal.Pkg.Pkg.Path() == load.PkgProfiler
+				}
+			}
+			if isW || isEm || opensOut {
+				nFatal++
+				failEdgeNoReturn(e, p, "E4.profile", "main/"+calleeName(call)+"-failure", call)
+			}
+		}
+	}
+	r.Floor("E4.profile(writer calls of the command)", nFatal, 3)
 	r.Count("writes of the YAML writers examined", nWrites)
 	r.Floor("E4.profile(writes of the YAML writers)", nWrites, 2)
+}
+
+
+// derivesFromValue: v is x, or a conversion / interface wrapping / variadic packing of it.
+func derivesFromValue(v, x ssa.Value, depth int) bool {
+	if depth > 5 || v == nil || x == nil {
+		return false
+	}
+	if v == x {
+		return true
+	}
+	switch y := v.(type) {
+	case *ssa.Convert:
+		return derivesFromValue(y.X, x, depth+1)
+	case *ssa.ChangeType:
+		return derivesFromValue(y.X, x, depth+1)
+	case *ssa.MakeInterface:
+		return derivesFromValue(y.X, x, depth+1)
+	case *ssa.Slice:
+		if al, ok := y.X.(*ssa.Alloc); ok {
+			for _, ref := range *al.Referrers() {
+				if ia, ok := ref.(*ssa.IndexAddr); ok {
+					for _, r2 := range *ia.Referrers() {
+						if st, ok := r2.(*ssa.Store); ok && st.Addr == ssa.Value(ia) && derivesFromValue(st.Val, x, depth+1) {
+							return true
+						}
+					}
+				}
+			}
+		}
+		return derivesFromValue(y.X, x, depth+1)
+	}
+	return false
 }
